@@ -18,10 +18,20 @@ import shutil
 from vlib import core, obs, emu
 
 
+# Loom names: "node<l>.x", or (variant B) names whose order as whole strings (what the emulator sorts by) differs
+# from the order of their host parts: "cn1-ib.0" < "cn1.0" because '-' sorts before '.', but "cn1" < "cn1-ib"
+NAMES_B = {1: "cn1-ib.0", 2: "cn1.0", 3: "cn2.x"}
+
+
+def variant_b(streams):
+    return (sum(m["tid"] * (k + 1) for k, m in enumerate(streams)) + len(streams)) % 2 == 1
+
+
 def materialise(td, streams):
+    names = NAMES_B if variant_b(streams) else {}
     for k, m in enumerate(streams):
         cpus = [(c[0], c[1]) for c in m["cpus"]] if m["cpus"] else None
-        meta = obs.thread_meta(m["tid"], m["pid"], "node%d.x" % m["loom"],
+        meta = obs.thread_meta(m["tid"], m["pid"], names.get(m["loom"], "node%d.x" % m["loom"]),
                                app_id=(m["app"] if m["app"] != 0 else None),
                                cpus=cpus,
                                rank=(m["rank"] if m["rank"] != -1 else None),
